@@ -5,7 +5,10 @@
 From Verif Require Import Base.Prelude Base.Machine.
 From Verif Require Model.Stack Model.StackWire Model.StackX Model.BindSched.
 
-Inductive cop := CStack (o : StackX.xop) | CSched (o : BindSched.op).
+(* [CWire p]: peer p reads its binding list over the wire (nodeManagementBindingData call
+   answered by NodeManagement.processReadBindingData); the reply's entries are observed in
+   the encoding of a listing.  The model's answer is the listing of BindingManager.Bindings. *)
+Inductive cop := CStack (o : StackX.xop) | CSched (o : BindSched.op) | CWire (p : N).
 Inductive cobs := SO (o : Stack.obs) | BO (o : BindSched.obs).
 
 Definition cst : Type := Stack.st * BindSched.st.
@@ -15,6 +18,7 @@ Definition cstep (s : cst) (o : cop) : cst * list cobs :=
   match o with
   | CStack o' => let '(s1, out) := StackX.xstep (fst s) o' in ((s1, snd s), map SO out)
   | CSched o' => let '(s1, out) := BindSched.step (snd s) o' in ((fst s, s1), map BO out)
+  | CWire p => let '(s1, out) := Stack.step (fst s) (Stack.ListBinds p) in ((s1, snd s), map SO out)
   end.
 
 Fixpoint crun (s : cst) (ops : list cop) : cst * list (cop * list cobs) :=
@@ -29,7 +33,10 @@ Fixpoint crun (s : cst) (ops : list cop) : cst * list (cop * list cobs) :=
 Definition parse_op (l : list Z) : option cop :=
   match StackX.parse_xop l with
   | Some o => Some (CStack o)
-  | None => match BindSched.parse_op l with Some o => Some (CSched o) | None => None end
+  | None => match BindSched.parse_op l with
+            | Some o => Some (CSched o)
+            | None => match l with [56; p] => Some (CWire (Nz p)) | _ => None end
+            end
   end.
 
 Definition print_obs (o : cobs) : list Z :=
